@@ -209,7 +209,6 @@ pub fn op_strategy(p: Profile) -> impl Strategy<Value = Op> {
 }
 
 fn client_strategy(i: usize) -> impl Strategy<Value = ClientSpec> {
-    let chaddr = vec![2u8, 0, 0, 0, 0, i as u8];
     (
         prop_oneof![
             6 => Just(0u8),
@@ -220,8 +219,20 @@ fn client_strategy(i: usize) -> impl Strategy<Value = ClientSpec> {
         proptest::collection::vec(any::<u8>(), 0..7),
         any::<u16>(),
         proptest::option::weighted(0.5, proptest::collection::vec(any::<u8>(), 0..12)),
+        // hardware address: the usual six octets, or (one client in eight) five, eight (EUI-64)
+        // or all sixteen
+        prop_oneof![21 => Just(6usize), 1 => Just(5usize), 1 => Just(8usize), 1 => Just(16usize)],
     )
-        .prop_map(move |(kind, idbytes, other, hostname)| {
+        .prop_map(move |(kind, idbytes, other, hostname, hwlen)| {
+            let chaddr: Vec<u8> = match hwlen {
+                5 => vec![2u8, 0, 0, 0, i as u8],
+                6 => vec![2u8, 0, 0, 0, 0, i as u8],
+                n => {
+                    let mut v = vec![2u8, 0, 0, 0, 0, i as u8];
+                    v.resize(n, 0xa0 + i as u8);
+                    v
+                }
+            };
             let client_id = match kind {
                 0 => None,
                 1 => {
